@@ -330,7 +330,9 @@ func checkC16(env *engine.Env, ci any) engine.Outcome {
 				}
 				return out
 			}
-			if documented[key] {
+			// a relation list that is documented as expandable is the same (overridable) field inside an override block
+			docKey := strings.TrimPrefix(key, "overrides.{fmt}.")
+			if documented[key] || (docKey != key && isExpandedList(docKey) && documented[docKey]) {
 				var want []string
 				for _, it := range []string{c.Value, "keep"} {
 					if e := strings.TrimSpace(os.Expand(it, m)); e != "" {
